@@ -257,6 +257,22 @@ def r26_sign_prop(ctx):
                     # not under a key-specific condition
                     cond = [a for a in _ifs_between(st, n)]
                     oke = not cond
+        elif isinstance(n, ast.DictComp) and any(
+                "items()" in U(g.iter) for g in n.generators):
+            # {unit: <value> for unit, text in groups.items() ...}: every
+            # alternative of the value carries the sign factor
+            arms = [n.value]
+            leaves = []
+            while arms:
+                a = arms.pop()
+                if isinstance(a, ast.IfExp):
+                    arms += [a.body, a.orelse]
+                else:
+                    leaves.append(a)
+            oke = bool(leaves) and all(
+                isinstance(a, ast.BinOp) and isinstance(a.op, ast.Mult) and (
+                    sign_by_prefix(f.node, a.left) or
+                    sign_by_prefix(f.node, a.right)) for a in leaves)
     rep.check(oke, rule, ctx.fkey(f, None, "all-units"), f.loc(),
               "every captured unit is multiplied by the sign factor inside "
               "the loop over all groups",
@@ -572,6 +588,22 @@ def r27_dur_table(ctx):
                 isinstance(n.test.ops[0], (ast.In, ast.NotIn)):
             into = n.body if isinstance(n.test.ops[0], ast.In) else n.orelse
             if not any("int(" in U(x) for x in into):
+                continue
+            try:
+                vals = ctx.folder.fold(n.test.comparators[0], pf.module,
+                                       pf.cls, {})
+            except NotConst:
+                continue
+            if isinstance(vals, (list, tuple, set, frozenset)) and all(
+                    isinstance(v, str) for v in vals):
+                int_keys = set(vals)
+    for n in ast.walk(pf.node):
+        # the same selection written as a conditional expression
+        if int_keys is None and isinstance(n, ast.IfExp) and isinstance(
+                n.test, ast.Compare) and isinstance(
+                    n.test.ops[0], (ast.In, ast.NotIn)):
+            into = n.body if isinstance(n.test.ops[0], ast.In) else n.orelse
+            if "int(" not in U(into):
                 continue
             try:
                 vals = ctx.folder.fold(n.test.comparators[0], pf.module,
